@@ -69,8 +69,10 @@ class FIBDemux(Device):
             self.ends[flow_id].put(packet)
         else:
             try:
-                assert self.outs
-                self.outs[self._fib[packet.flow_id]].put(packet)
+                # no outputs at all (None or []) is an IndexError like any
+                # other port number without an output: use the default output
+                outs = self.outs if self.outs is not None else []
+                outs[self._fib[packet.flow_id]].put(packet)
             except (KeyError, IndexError, ValueError) as exc:
                 print("FIB Demux Error: " + str(exc))
                 if self.default_out:
